@@ -9,7 +9,7 @@ props = {json.loads(l)["id"]: json.loads(l) for l in open("/verif/properties.jso
 T = {
  "C01": ("VCell (TLC: Final/Closed/Euler/Oriented/InsideCurrent on exhaustive small lattices, all orders of equidistant candidates, + seeded larger lattices) -> cells replayed into the code under 4+ similarity embeddings and compared (volume, centroid, vertices, faces); builder steps recorded through hooks validated by VCellTrace",
          "exact oracle only on integer-lattice inputs of bounded size; tolerance 1e-9*scale + 2^12 ulp; split edges (finding F2, frequent form repaired by eb81dbb) are followed by VCell.NewPoint / VCellTrace to the end of the history; residual F2 classified by VCellTrace ('discord')", "DESIGN.md §5 C01"),
- "C02": ("VCell lattice pipeline (1D/2D/3D, periodic/reflective, anisotropic, offsets, scales 1e-6..2e14): every measure > 0 and the sum = box measure; pipeline F: VTessTrace.VolChecks on quantised volumes of seeded float inputs",
+ "C02": ("VCell lattice pipeline (1D/2D/3D, periodic/reflective, anisotropic, offsets, scales 1e-6..2e14): every measure > 0 and the sum = box measure; pipeline F: VTessTrace.VolChecks on quantised volumes of seeded float inputs; design level: VMeasure + VTileTrace - the EXACT volumes (rational, evaluated by TLC modulo three primes) of the cells the specification builds sum to the box measure for every lattice input, whatever the order of equidistant candidates",
          "sum identity checked per embedded run; quantisation 2^-26", "DESIGN.md §5 C02"),
  "C03": ("VTess model-checked (StoredOnce, StoredAtMostOnce, ListedBy*, all masks, reciprocal inputs incl. self-images); recorded non-symmetric face integrals of both sides validated by VTessTrace.RecipChecks on quantised areas/centroids/normals; numeric check at the 1e-9 threshold and antisymmetric flux in the harness",
          "float inputs in general position + exactly snapping lattices; quantisation 2^-26 with slack 2", "DESIGN.md §5 C03"),
@@ -23,11 +23,11 @@ T = {
          "masks: all 2^n for n<=4, sampled above", "DESIGN.md §5 C07"),
  "C08": ("VCell with dimensionality (slab, projected radius, images on active axes only, LowDimPrism) -> replay of 1D/2D lattice inputs; junk in unused components must give bitwise equal tokens",
          "closed form = the spec's exact 1D/2D cells", "DESIGN.md §5 C08"),
- "C09": ("parallel fragment of VTess model-checked for all interleavings (Deterministic, SharedImmutable, SlotOwnership); recorded TaskStart/TaskEnd events and result tokens of rayon pools 1..64 with seeded jitter validated by VParTrace against the sequential no-rayon build",
+ "C09": ("parallel fragment of VTess model-checked for all interleavings (Deterministic, SharedImmutable, SlotOwnership); recorded TaskStart/TaskEnd events and result tokens of rayon pools 1..64 with seeded jitter validated by VParTrace against the sequential no-rayon build; API histories (VSession): TLC enumerates every sequence of 3 (4) calls on one object, the harness executes them on fresh objects, VSessionTrace requires every observation to be independent of the calls before it (rebuild / clone / repeated calls bitwise equal)",
          "implementation schedules are sampled, the model is exhaustive for N<=5, T<=3", "DESIGN.md §5 C09"),
  "C12": ("VTess (Link/Offsets/NeighbourIds) model-checked for arbitrary plane lists and masks; VTessTrace re-executes them on the recorded plane lists for both routes and requires the recorded arrays to be exactly the spec's",
          "all-integer data: decided completely by TLC per recorded run", "DESIGN.md §5 C12"),
- "C13": ("VTess (SymIsNonSymMinusTreated, SymEqualsStored); VTessTrace.IntegralChecks: dump tokens of both routes equal, integral lists vs stored values in order",
+ "C13": ("VTess (SymIsNonSymMinusTreated, SymEqualsStored); VTessTrace.IntegralChecks: dump tokens of both routes equal, integral lists vs stored values in order; API histories (VSession / VSessionTrace): direct build = converted integrator (without faces) and every integral list identical bit for bit at any point of any sequence of 3 (4) calls",
          "bit tokens compared as opaque strings", "DESIGN.md §5 C13"),
  "C16": ("VCell.SafetyBound model-checked; lattice replay: reported radius >= 2*exact distance to farthest point and >= distance to every neighbour with a face; every recorded termination validated by VCellTrace; pipeline F: radius vs the cell's own vertices on many-faced cells",
          "second clause: VCell.FarIrrelevant (no lattice point beyond the safety radius can cut the finished cell) model-checked; implementation: cells rebuilt with 1..3 generators added just outside the reported safety ball, recorded and validated by VTessTrace.FarChecks (measure, face set, radius unchanged)", "DESIGN.md §5 C16"),
@@ -39,9 +39,9 @@ T = {
          "exhaustive on the small grid; the 52-bit range is reached by homogeneity and translation invariance of the determinant", "DESIGN.md §5 C10"),
  "C11": ("the VPred vectors replayed into each buildable backend (ibig, dashu, malachite, num_bigint) must give the specification's sign; tessellations of degenerate lattice inputs (exact path consulted, incl. non-tie decisions) must be bitwise equal across backends",
          "rug backend cannot be built in the sandbox (needs m4/GMP)", "DESIGN.md §5 C11"),
- "C14": ("the harness is a downstream crate implementing CellIntegral/FaceIntegral (moments up to degree 2, plane probes); VDecomp (TLA+) fixes what both decompositions feed per plane (StreamsAgree, model-checked on every finished lattice cell) and VFacesTrace validates the recorded per-plane triangle counts, tetrahedron counts and the cell handed to init; moments of both decompositions compared with an independent integration of the polytope from its face polygons",
+ "C14": ("the harness is a downstream crate implementing CellIntegral/FaceIntegral (moments up to degree 2, plane probes); VDecomp (TLA+) fixes what both decompositions feed per plane (StreamsAgree, model-checked on every finished lattice cell) and VFacesTrace validates the recorded per-plane triangle counts, tetrahedron counts and the cell handed to init; moments of both decompositions compared with an independent integration of the polytope from its face polygons; design level: VMeasure.MeasureOK - on every finished lattice cell the projection-based decomposition (six signed tetrahedra per vertex) and the fan decomposition agree per plane in volume, first and second moments, signed area, face moments (exact rational identities evaluated by TLC modulo three primes)",
          "per-cell data of a type other than () cannot be implemented downstream (finding F10): alignment observed through the cell passed to init", "DESIGN.md §5 C14"),
- "C15": ("VFaces (transcription of with_faces / sort_face_vertices) model-checked on every finished lattice cell for several storage orders (FacesOK, CcwInward exact, OrderIndependent); recorded vertex triples and faces of real cells validated by VFacesTrace (re-extraction, incidence, simple cycles, shared planes, direction, Euler, accessors); geometric clauses, discard/with_faces identity and rejection in 1D/2D checked in the harness",
+ "C15": ("VFaces (transcription of with_faces / sort_face_vertices) model-checked on every finished lattice cell for several storage orders (FacesOK, CcwInward exact, OrderIndependent); recorded vertex triples and faces of real cells validated by VFacesTrace (re-extraction, incidence, simple cycles, shared planes, direction, Euler, accessors); geometric clauses, discard/with_faces identity and rejection in 1D/2D checked in the harness; API histories (VSession): with_faces / discard_faces round trips of every cell, cell set independent of the type-state, type-state transitions legal (VSessionTrace)",
          "geometric clauses numeric with tolerance; memory safety of the unchecked accessors not decided", "DESIGN.md §5 C15"),
  "C19": ("VHelpers: exact closed forms of every exported helper; TLC checks the defining equations on them for every small integer argument tuple and prints the tuples with exact results; replay under similarity embeddings and rescaled normals",
          "irrational results compared through exact squares; six similarity embeddings incl. scales 2^-30, 1e-9, 2^30 (absolute thresholds only show far from unit scale)", "DESIGN.md §5 C19"),
